@@ -324,3 +324,46 @@ Section WithHash.
     - apply (fresh_slots_ok 4). lia.
   Qed.
 End WithHash.
+
+(* ------------------------------------------------------------------ termination needs no invariant:
+   with the full-cycle guard every probe loop returns within n steps in ANY table of a
+   power-of-two size, whatever its contents (all tombstones, all records, ...) *)
+Section Termination.
+  Variable hf : Z -> Z.
+
+  Lemma probes_terminate : forall st, shape_ok st ->
+    (forall k, fst (find hf st k) <> OutOfFuel /\ fst (find_record hf st k) <> OutOfFuel) /\
+    (forall key, fst (plan_insert hf st key) <> OutOfFuel) /\
+    (forall code pred ud, fst (plan_insert_prehashed st code pred ud) <> OutOfFuel).
+  Proof.
+    intros st (P & M & L). split; [|split].
+    - intros k.
+      assert (Hh : 0 <= fold_hash (code_of hf k) (h_mask st) < h_n st)
+        by (rewrite M; apply fold_hash_range; assumption).
+      pose proof (find_entry_spec st (KArg k) _ (code_of hf k) (conj P (conj M L)) Hh) as S.
+      unfold find, find_record.
+      destruct (find_entry st (KArg k) (fold_hash (code_of hf k) (h_mask st)) (code_of hf k)) as [fr lg].
+      simpl in *. destruct fr; try contradiction; split; discriminate.
+    - intros key. unfold plan_insert, plan_insert_prehashed.
+      set (code := code_of hf (kval key)).
+      assert (Hh : 0 <= fold_hash code (h_mask st) < h_n st)
+        by (rewrite M; apply fold_hash_range; assumption).
+      pose proof (pow2size_ge4 _ P) as [G4 _].
+      pose proof (plan_loop_spec st code (Z.eqb (kval key)) key (fold_hash code (h_mask st)) (h_n st) M Hh
+                    (Z.to_nat (h_n st)) 0 None ltac:(lia) ltac:(lia)) as S.
+      rewrite pos_0 in S by lia.
+      destruct (plan_loop (Z.to_nat (h_n st)) st code (Z.eqb (kval key)) key (fold_hash code (h_mask st))
+                  (fold_hash code (h_mask st)) None) as [r lg].
+      simpl in *. destruct r as [j|j [t|]|]; try contradiction; discriminate.
+    - intros code pred ud. unfold plan_insert_prehashed.
+      assert (Hh : 0 <= fold_hash code (h_mask st) < h_n st)
+        by (rewrite M; apply fold_hash_range; assumption).
+      pose proof (pow2size_ge4 _ P) as [G4 _].
+      pose proof (plan_loop_spec st code pred ud (fold_hash code (h_mask st)) (h_n st) M Hh
+                    (Z.to_nat (h_n st)) 0 None ltac:(lia) ltac:(lia)) as S.
+      rewrite pos_0 in S by lia.
+      destruct (plan_loop (Z.to_nat (h_n st)) st code pred ud (fold_hash code (h_mask st))
+                  (fold_hash code (h_mask st)) None) as [r lg].
+      simpl in *. destruct r as [j|j [t|]|]; try contradiction; discriminate.
+  Qed.
+End Termination.
